@@ -121,6 +121,22 @@ def handleShutdownBusy (args : List String) (obs : String) : String :=
     model ++ "\t" ++ verdict
   | _ => "bad-case\tFAIL:bad-case"
 
+/-- c12s `<n>`: `n` event streams are open on a server with `max_conns = n`: they are being serviced (model: `serving = n`,
+    no unit left, `C12_limit`), so one more client is accepted only after a stream has ended. -/
+def handleStreams (args : List String) (obs : String) : String :=
+  match args.mapM String.toNat? with
+  | some [n] =>
+    let full := (run false (Srv.new n) (fill n)).map fun s => (s.serving, s.tokens.units)
+    let model := s!"events={",".intercalate (List.replicate n "8")} extra=200/2 extra_waited_for_a_stream_to_end={if full == some (n, 0) then 1 else 0} stopped=1"
+    let verdict :=
+      if obs == "PANIC" then "FAIL:harness-panic:" else
+      let fails := (if field obs "extra_waited_for_a_stream_to_end" == "1" then [] else ["over-limit"]) ++
+        (if field obs "extra" == "200/2" then [] else ["slot-lost"]) ++
+        (if (field obs "events").splitOn "," == List.replicate n "8" then [] else ["stream-incomplete"])
+      if fails.isEmpty then "ok" else "FAIL:" ++ ",".intercalate fails ++ ":"
+    model ++ "\t" ++ verdict
+  | _ => "bad-case\tFAIL:bad-case"
+
 /-- c12i `<k>`: failing accepts must not keep the connection tasks from running (one async thread). -/
 def handleEmfileIdle (args : List String) (obs : String) : String :=
   match args with
